@@ -660,6 +660,12 @@ def depositReq (cfg : Cfg) (s : State) (app user pool dx dy : Nat) (ext : Bool) 
                     deps := s2.deps ++ [{ app := app, pool := pool, id := id, owner := user, qd := p.quote, bd := p.base,
                                           dx := dx, dy := dy, status := .pending }] }, id)
 
+/-- the pool-coin denom check of `ValidateMsgWithdraw` / `ValidateMsgFarm` / `ValidateMsgUnfarm` / `ValidateMsgUnfarmAndWithdraw`
+(`msg.PoolCoin.Denom != pool.PoolCoinDenom`): the coin of the message must be the pool coin of THIS pool — `PoolCoinDenom(app, pool)`
+encodes the app id AND the pool id, so the pool coin of (app 2, pool 1) is not the pool coin of (app 1, pool 1).  This is the `ext`
+argument of `withdrawReq` / `farm` / `unfarm` / `unfarmAndWithdraw`, computed by the model side (driver) from the message's denom. -/
+def poolCoinOk (app pool : Nat) (d : Denom) : Bool := decide (d = Denom.pool app pool)
+
 def withdrawReq (cfg : Cfg) (s : State) (app user pool pc : Nat) (ext : Bool) : Option (State × Nat) :=
   if pool = 0 ∨ pc = 0 then none else
   match cfg.app? app with
